@@ -467,3 +467,23 @@ impl Trainer {
         })
     }
 }
+
+#[cfg(vibrato_verif)]
+impl Trainer {
+    /// Verification hook: number of labels handed out by the feature provider so far.
+    pub fn verif_num_labels(&self) -> usize {
+        self.provider.len()
+    }
+
+    /// Verification hook: the training lattice of one example, as (target, label) lists per
+    /// boundary, built exactly as `train` does.
+    pub fn verif_build_lattice(&mut self, example: &mut Example) -> Result<Vec<Vec<(usize, u32)>>> {
+        example.sentence.compile(self.config.dict.char_prop());
+        let lattice = self.build_lattice(example)?;
+        Ok(lattice
+            .nodes()
+            .iter()
+            .map(|n| n.edges().iter().map(|e| (e.target(), e.label().get())).collect())
+            .collect())
+    }
+}
